@@ -6,6 +6,22 @@ props = [json.loads(l) for l in open(os.path.join(V, "properties.jsonl"))]
 TB = ("Trusted: Coq 8.16.1 kernel + vm_compute (no native_compute); the axioms Print Assumptions reports per theorem "
       "(written into the evidence on every run); ")
 CLAIMED = {
+ "C01": dict(
+  text="Machine-checked proof over the shared waveform pool model (all four classes): the invariant (0<=start, start+count<=capacity, view of exactly count samples with signal_count columns, irregular timing consistent) holds after ANY history of operations with ANY arguments (induction over fold_left of the pool step, 11 operation kinds incl. constructors); the view after append(array) = view ++ rows, after load_data = the requested window, capacity changes keep the samples, sample_count shrinks to a prefix / grows keeping the old samples first, get_data is the sub-list or TypeError/ValueError. Correspondence: online-generated histories over pools of 1-4 objects (owned / borrowed / strided buffers, 1-D and 2-D digital, all dtypes, malformed arguments, NumPy scalar arguments, scripted multi-step scenarios) with a full snapshot (buffer incl. slack, geometry, resizability, timing, scale, properties) of every object after every call, judged by a list-level spec oracle in Coq.",
+  design="DESIGN.md §7.0, C01", tech="Coq invariant + refinement proofs over a hand state-machine model; in-Coq pool correspondence",
+  note=TB + "hand model Model/Waveform.v tied by correspondence; NumPy zeros/resize/slice assignment modelled; sample values are small integers mapped into each dtype."),
+ "C07": dict(
+  text="Machine-checked proof: in the models of the waveform pool, the time arrays and Vector (single-call operations) a raising call returns the state unchanged (all checks precede the construction of the new state). The tie to the code is the fault-generating correspondence: after EVERY raising call the snapshot of every pool object (receiver, sources, bystanders) must equal the snapshot before; arrays and Vector via their own correspondences run as sub-checks.",
+  design="DESIGN.md §7 C07", tech="Coq proof over hand models + fault-generating in-Coq correspondence (pool, arrays, Vector)",
+  note=TB + "atomicity of the real code rests on the correspondence (post-failure snapshots); the model-level theorem is by construction."),
+ "C09": dict(
+  text="Machine-checked proof: the pool invariant includes 'stored timestamps monotonic, mode IRREGULAR iff timestamps stored, #timestamps = sample_count'; it is preserved by every operation for every argument, hence holds in every reachable pool (induction over histories); count mismatches on timing / sample_count assignment raise IrregularTimestampCountMismatchError; get_timestamps(0, sample_count) returns the stored list. Correspondence biased to irregular timing on all paths.",
+  design="DESIGN.md §7 C09", tech="Coq invariant proof by induction over histories + in-Coq pool correspondence",
+  note=TB + "hand model tied by correspondence; pickling covered by C13."),
+ "C10": dict(
+  text="Machine-checked proof of the append rules on the model: success implies dtypes (and digital signal counts) matched, NONE/REGULAR receivers keep their timing with NONE/REGULAR sources, IRREGULAR receivers get exactly the concatenated timestamps of IRREGULAR sources, samples appended in order, properties looked up as receiver-first then earliest source (never overwritten), scale/dtype/start untouched, other pool objects untouched, mode mismatch raises TimingMismatchError, arrays need timestamps exactly for IRREGULAR receivers. The converse (must succeed when the conditions hold, exact warnings) is decided per run by the list-level spec oracle in Coq on append-biased pool histories with shared Timing objects.",
+  design="DESIGN.md §7 C10", tech="Coq proof over the pool model + in-Coq pool correspondence",
+  note=TB + "hand model tied by correspondence."),
  "C02": dict(
   text="Machine-checked proof over all of Z: 20 theorems about the tick functions regenerated on every run from _timedelta.py/_datetime.py/_time_value_tuple.py (to_tuple = floor/mod, ranges, from_ticks/from_tuple accept exactly the in-range values and otherwise raise OverflowError, both round trips, byte layout and round trip of the 16-byte CVI record, arrays, pickle, DateTime delegation). The byte/array/pickle glue is tied to the code by a per-run correspondence evaluated inside Coq; a broken proof or correspondence triggers a failing-input search (harvested literals, 2^k battery) against the property-strength spec.",
   design="DESIGN.md §7 C02", tech="Coq proof over a translator-regenerated model + in-Coq correspondence",
